@@ -302,7 +302,7 @@ def _check_encoding(kind, w, enc, orig, C, smoothing):
             val = float(v)
             if not (0.0 <= val <= 1.0):
                 raise Violation(f"encoding-out-of-[0,1]:{kind}", f"{val}")
-            if smoothing < 1 and (val > 0.5) != (c > 0.5):
+            if 1 - smoothing > 1e-5 and (val > 0.5) != (c > 0.5):
                 raise Violation(f"encoding-argmax:{kind}", f"binary label {c} became {val}")
             continue
         if smoothing == 0 and kind == "LabelSmoothingWrapper":
@@ -318,7 +318,8 @@ def _check_encoding(kind, w, enc, orig, C, smoothing):
         mx = float(v.max())
         if float(v[c]) < mx - 1e-7:
             raise Violation(f"encoding-argmax:{kind}", f"class {c} has {float(v[c])}, max {mx}")
-        if smoothing < 1 and C > 1 and int(v.argmax()) != c:
+        # strict argmax only where the on/off gap (1 - smoothing) is representable in float32; closer to 1 the encoding is a tie
+        if 1 - smoothing > 1e-5 and C > 1 and int(v.argmax()) != c:
             raise Violation(f"encoding-argmax:{kind}", f"argmax {int(v.argmax())} for class {c}")
         if hard[i] != c:
             raise Violation(f"bulk!=decoded-per-sample:{kind}", f"sample {i}: bulk {hard[i]}, per-sample argmax {c}")
